@@ -86,6 +86,20 @@ def str_(it, v):
                 return str_(it, a[0])
     if isinstance(v, (list, tuple, dict)) and not _has_sym(v):
         return str(v)
+    if isinstance(v, list) and all(isinstance(x, (SStr, SInt, SBool, str, int, bool)) or x is None for x in v):
+        # str(list) = "[" + ", ".join(repr(x)) + "]"; repr of a symbolic string is an uninterpreted function (quotes / escapes are not modelled)
+        parts = []
+        for x in v:
+            if isinstance(x, SStr):
+                parts.append(z3.Function("py:repr_str", z3.StringSort(), z3.StringSort())(x.z))
+            elif isinstance(x, str):
+                parts.append(z3.StringVal(repr(x)))
+            else:
+                parts.append(z3_of(str_(it, x)))
+        out = z3.StringVal("[")
+        for i, part in enumerate(parts):
+            out = z3.Concat(out, part) if i == 0 else z3.Concat(out, z3.StringVal(", "), part)
+        return wrap(z3.Concat(out, z3.StringVal("]")))
     raise OutOfSubset(f"str() of {v!r}")
 
 
